@@ -4,6 +4,8 @@ Parameterized objects and records the observations the Lean driver understands
 
 Case format
   prop     : "C02" | "C08"                 which oracle the driver evaluates
+  sub      : bool (default false)          every target class T<t> is an empty subclass of a class that declares the
+                                           parameters, so a class-level assignment `T<t>.p = v` meets an *inherited* Parameter
   nsp      : number of Integer parameters v0.. of every source object
   src_init : [[int, ...], ...]             one row per source object S0, S1, ...
   targets  : [{"params": [pdecl, ...], "ctor": [[pidx, rhs], ...]}, ...]   target t has its own class T<t>
@@ -18,6 +20,11 @@ Case format
      {"op":"ctxExit"}                            r.__exit__(None, None, None)               (restorer popped)
      {"op":"srcSet","s":s,"i":i,"v":n}           S<s>.v<i> = n
   rhs  : {"k":"atom","a":atom} | {"k":"cont","items":[atom, ...]}        a tuple of atoms
+       | {"k":"gen"}   the case's shared number generator (a plain callable, i.e. a Dynamic value; it is also the
+                       value of the witness parameter W.a); only ever assigned where it must be rejected: a
+                       readonly Integer parameter (callables bypass Number validation, the guard raises TypeError)
+  update / ctxEnter may carry "ev": "first"|"last": the update also names the target's Event parameter `e_`
+  (e_=True as first / last key); the model ignores it (no watcher on e_, it resets itself)
   atom : {"a":"lit","n":int} | {"a":"par","s":s,"i":i}                   S<s>.param.v<i>
        | {"a":"fn","deps":[[s,i],..],"k":int,"rx":bool,"sk":int|None}    bind(lambda *a: k+sum(a), deps…) or the rx expression k + dep.rx() + …;
                                                                          sk: the bound function raises param.Skip when k+sum(a) < sk
@@ -25,7 +32,11 @@ Case format
 
 Observation: {"ctor_err": null | name, "init": state, "steps": [state + {"err":…, "log":[…]}, …]}
   state = {"src": [[int]], "tgt": [[val]], "cls": [[val]], "refs": [[[p, rhs], ...]],
-           "watch": [[[t, ...] per parameter] per source]}     -- `_sync_refs` watchers, registration order
+           "watch": [[[t, ...] per parameter] per source],     -- `_sync_refs` watchers, registration order
+           "own": [[1 if T<t> itself holds the Parameter p (not inherited) ...] per target],
+           "aux": [[e_ value, e_ mode, syncing names...] per target] + [[W.a, inspect_value(W.a)]]}
+             -- state that must never move: the Event parameter idle (False, 'set-reset'), `syncing` empty,
+             -- the shared generator's witness value (under Dynamic.time_dependent) undisturbed
   log   = [["s"|"t", index, [[p, new], ...]], ...]             -- one entry per call of the universal watcher
 For C02 the observation also has "twin": the steps of the same history with every rejected
 assignment left out (an `update` rejected at its k-th key is replaced by the update of the keys before).
@@ -61,6 +72,8 @@ def _atom_is_lit(a):
 
 
 def rhs_is_lit(rhs):
+    if rhs['k'] == 'gen':
+        return False
     return _atom_is_lit(rhs['a']) if rhs['k'] == 'atom' else all(_atom_is_lit(a) for a in rhs['items'])
 
 
@@ -69,8 +82,15 @@ def rhs_supported(rhs):
     return not any(a['a'] == 'fn' and not a['deps'] for a in atoms)
 
 
+def gen_supported(tdecl, p):
+    """the shared generator is only assigned where the assignment must be rejected"""
+    return p < len(tdecl['params']) and tdecl['params'][p]['kind'] == 'int' and tdecl['params'][p]['readonly']
+
+
 def key_supported(tdecl, p, rhs):
     """mirror of Lean `keySupported`: what lies outside the model is refused, not executed"""
+    if rhs['k'] == 'gen':
+        return gen_supported(tdecl, p)
     if p >= len(tdecl['params']):
         return rhs_is_lit(rhs)
     return rhs_supported(rhs) and (tdecl['params'][p]['allow_refs'] or rhs_is_lit(rhs))
@@ -85,6 +105,8 @@ def _norm_atom(a):
 
 def norm_rhs(rhs):
     """canonical description of a right-hand side (what the refs table is reported as)"""
+    if rhs['k'] == 'gen':
+        return rhs
     if rhs['k'] == 'atom':
         return {'k': 'atom', 'a': _norm_atom(rhs['a'])}
     return {'k': 'cont', 'items': [_norm_atom(a) for a in rhs['items']]}
@@ -120,11 +142,31 @@ class Runner:
                 else:
                     ns[f'p{i}'] = param.Range(default=tuple(pd['default']), **kw)
                 names.append(f'p{i}')
-            self.tcls.append(type(f'T{t}', (param.Parameterized,), ns))
+            ns['e_'] = param.Event()
+            if case.get('sub'):
+                base = type(f'TB{t}', (param.Parameterized,), ns)
+                self.tcls.append(type(f'T{t}', (base,), {}))
+            else:
+                self.tcls.append(type(f'T{t}', (param.Parameterized,), ns))
             self.tnames.append(names)
+
+    def setup_witness(self):
+        """the shared generator and the parameter that already holds it"""
+        import itertools
+        param = self.param
+        counter = itertools.count(1)
+
+        def gen():
+            return next(counter)
+        self.gen = gen
+        W = type('W', (param.Parameterized,), {'a': param.Number(default=0)})
+        self.wit = W()
+        self.wit.a = gen
+        self.wit.a          # produce the value for the current time
 
     def construct(self):
         """-> exception name or None"""
+        self.setup_witness()
         for t, td in enumerate(self.case['targets']):
             kw = {}
             if not all(key_supported(td, p, rhs) for p, rhs in td['ctor']):
@@ -170,6 +212,8 @@ class Runner:
 
     def mk_rhs(self, rhs):
         rhs = norm_rhs(rhs)
+        if rhs['k'] == 'gen':
+            return self.gen
         if rhs['k'] == 'atom':
             o = self.mk_atom(rhs['a'])
         else:
@@ -201,7 +245,21 @@ class Runner:
         return {'src': [[getattr(s, n) for n in self.snames] for s in self.srcs],
                 'tgt': [[_jval(getattr(o, n)) for n in self.tnames[t]] for t, o in enumerate(self.tgts)],
                 'cls': [[_jval(getattr(self.tcls[t], n)) for n in self.tnames[t]] for t in range(len(self.tgts))],
-                'refs': refs, 'watch': watch}
+                'refs': refs, 'watch': watch, 'aux': self.aux(),
+                'own': [[int(n in self.tcls[t].__dict__) for n in self.tnames[t]] for t in range(len(self.tgts))]}
+
+    MODES = {'set-reset': 0, 'set': 1, 'reset': 2}
+
+    def aux(self):
+        rows = []
+        for t, obj in enumerate(self.tgts):
+            ev = obj._param__private.params.get('e_') or self.tcls[t].param.objects(instance=False)['e_']
+            clsev = self.tcls[t].param.objects(instance=False)['e_']
+            rows.append([int(bool(obj.e_)), self.MODES.get(ev._mode, 9), self.MODES.get(clsev._mode, 9)] +
+                        sorted(self.tnames[t].index(n) if n in self.tnames[t] else 99 for n in obj._param__private.syncing))
+        last = self.wit.param.inspect_value('a')
+        rows.append([self.wit.a, -1 if last is None else last])
+        return rows
 
     # -- operations ---------------------------------------------------------
     def do(self, op):
@@ -209,7 +267,8 @@ class Runner:
         tds = self.case['targets']
         if o == 'set' and (op['p'] >= len(tds[op['t']]['params']) or not key_supported(tds[op['t']], op['p'], op['rhs'])):
             raise NotImplementedError
-        if o == 'setCls' and not rhs_is_lit(op['rhs']):
+        if o == 'setCls' and not (rhs_is_lit(op['rhs']) or
+                                  (op['rhs']['k'] == 'gen' and gen_supported(tds[op['t']], op['p']))):
             # a callable would be taken for a Dynamic value; `T.p = <Parameter>` redefines the parameter
             raise NotImplementedError
         if o in ('update', 'ctxEnter') and not all(key_supported(tds[op['t']], p, r) for p, r in op['kvs']):
@@ -221,6 +280,10 @@ class Runner:
         elif o in ('update', 'ctxEnter'):
             t = op['t']
             kw = [(self.tnames[t][p] if p < len(self.tnames[t]) else f'q{p}', self.mk_rhs(r)) for p, r in op['kvs']]
+            if op.get('ev') == 'first':
+                kw = [('e_', True)] + kw
+            elif op.get('ev') == 'last':
+                kw = kw + [('e_', True)]
             form = op.get('form', 'pos')
             if form == 'kw':
                 r = self.tgts[t].param.update(**dict(kw))
@@ -266,13 +329,19 @@ class Runner:
 
 
 def _run(case, ops):
-    r = Runner(case)
-    ce = r.construct()
-    if ce is not None:
-        return {'ctor_err': ce, 'init': None, 'steps': [], 'cut': 0}
-    init = r.state()
-    steps = r.run_ops(ops)
-    return {'ctor_err': None, 'init': init, 'steps': steps, 'cut': len(steps)}
+    import param
+    saved = param.Dynamic.time_dependent
+    param.Dynamic.time_dependent = True      # dynamic values are regenerated only when time advances (it never does)
+    try:
+        r = Runner(case)
+        ce = r.construct()
+        if ce is not None:
+            return {'ctor_err': ce, 'init': None, 'steps': [], 'cut': 0}
+        init = r.state()
+        steps = r.run_ops(ops)
+        return {'ctor_err': None, 'init': init, 'steps': steps, 'cut': len(steps)}
+    finally:
+        param.Dynamic.time_dependent = saved
 
 
 ASSIGN_OPS = ('set', 'setCls', 'update', 'ctxEnter')
@@ -297,7 +366,7 @@ def applied_prefix(case, t, kvs, st, src_before):
     n = 0
     for p, rhs in kvs:
         pd = pds[p] if p < len(pds) else None
-        is_ref = pd is not None and pd['allow_refs'] and not rhs_is_lit(rhs) and \
+        is_ref = pd is not None and rhs['k'] != 'gen' and pd['allow_refs'] and not rhs_is_lit(rhs) and \
             (rhs['k'] == 'atom' or pd['nested_refs'])
         if p in announced or (is_ref and rhs_skips(rhs, src_before, pd['nested_refs'])):
             n += 1
@@ -314,7 +383,10 @@ def twin_ops(case, ops, steps, init):
         if st['err'] in ('ValueError', 'TypeError') and op['op'] in ASSIGN_OPS:
             if op['op'] in ('update', 'ctxEnter'):
                 n = applied_prefix(case, op['t'], op['kvs'], st, prev['src'])
-                out.append({'op': 'update', 't': op['t'], 'kvs': op['kvs'][:n], 'form': op.get('form', 'pos')})
+                tw = {'op': 'update', 't': op['t'], 'kvs': op['kvs'][:n], 'form': op.get('form', 'pos')}
+                if op.get('ev') == 'first':
+                    tw['ev'] = 'first'          # the Event key preceded the rejected one: it was applied (and reset itself)
+                out.append(tw)
             else:
                 out.append({'op': 'update', 't': op['t'], 'kvs': []})
         else:
@@ -391,8 +463,8 @@ def val_ok(pd, v):
     return pd['kind'] == 'pair' and len(v) == 2 and all(inb(x) for x in v)
 
 
-def mk_case(prop, src_init, targets, ops, nsp=2):
-    return {'prop': prop, 'nsp': nsp, 'src_init': [list(r) for r in src_init],
+def mk_case(prop, src_init, targets, ops, nsp=2, sub=False):
+    return {'prop': prop, 'nsp': nsp, 'sub': sub, 'src_init': [list(r) for r in src_init],
             'targets': [{'params': [dict(p) for p in t['params']], 'ctor': t.get('ctor', [])} for t in targets],
             'ops': ops}
 
@@ -468,11 +540,12 @@ def gen_history(rng, targets, src, n_ops, nsrc, nsp, p_bad_src=0.06):
             ks = rng.sample(linkable, rng.randint(1, min(3, len(linkable))))
             kvs = [[p, rand_ref(rng, nsrc, nsp, pds[p], src) if rng.random() < 0.5 else rand_plain(rng, pds[p])] for p in ks]
             form = rng.choice(['pos', 'dict', 'kw'])
+            extra = {'ev': rng.choice(['first', 'last'])} if rng.random() < 0.3 else {}
             if depth < 2 and rng.random() < 0.6:
-                ops.append({'op': 'ctxEnter', 't': t, 'kvs': kvs, 'form': form})
+                ops.append(dict({'op': 'ctxEnter', 't': t, 'kvs': kvs, 'form': form}, **extra))
                 depth += 1
             else:
-                ops.append({'op': 'update', 't': t, 'kvs': kvs, 'form': form})
+                ops.append(dict({'op': 'update', 't': t, 'kvs': kvs, 'form': form}, **extra))
         elif r < 0.92 and depth:
             ops.append({'op': 'ctxExit'})
             depth -= 1
@@ -492,7 +565,7 @@ def gen_history(rng, targets, src, n_ops, nsrc, nsp, p_bad_src=0.06):
     return ops
 
 
-REJ_KINDS = ('plain', 'ref', 'nested', 'const', 'readonly')
+REJ_KINDS = ('plain', 'ref', 'nested', 'const', 'readonly', 'gen')
 REJ_ROUTES = ('set', 'setCls', 'update', 'updateLater', 'ctxEnter')
 
 
@@ -534,6 +607,13 @@ def rejected_op(rng, targets, src, nsrc, nsp, kind, route, t=None, prefer=None):
             return None
         p = rng.choice(c)
         rhs = rng.choice([lit(rng.choice([8, 9])), rand_ref(rng, nsrc, nsp, pds[p], src)]) if pds[p]['allow_refs'] else lit(9)
+    elif kind == 'gen':
+        # the shared number generator (already the value of the witness parameter) handed to a readonly Integer
+        c = [i for i, pd in enumerate(pds) if pd['readonly'] and pd['kind'] == 'int']
+        if not c:
+            return None
+        p = rng.choice(c)
+        rhs = {'k': 'gen'}
     else:
         c = pick(lambda pd: pd['readonly'])
         if not c:
@@ -551,8 +631,12 @@ def rejected_op(rng, targets, src, nsrc, nsp, kind, route, t=None, prefer=None):
         if rng.random() < 0.4:
             post = [q for q in others if q not in pre]
             kvs += [[q, rand_plain(rng, pds[q])] for q in post[:1]]
-    return {'op': 'ctxEnter' if route == 'ctxEnter' else 'update', 't': t, 'kvs': kvs, 'form': rng.choice(['pos', 'dict', 'kw']),
-            'note': note + (':later' if len(kvs) > 1 else '')}
+    op = {'op': 'ctxEnter' if route == 'ctxEnter' else 'update', 't': t, 'kvs': kvs, 'form': rng.choice(['pos', 'dict', 'kw']),
+          'note': note + (':later' if len(kvs) > 1 else '')}
+    ev = rng.choice([None, 'first', 'last'])
+    if ev:
+        op['ev'] = ev           # the update also names the target's Event parameter
+    return op
 
 
 def probe_suffix(rng, src, nsrc, nsp, rounds=1):
@@ -612,7 +696,7 @@ def gen_case(rng, prop, max_ops=10):
             ops.append({'op': 'ctxExit'})
         if rng.random() < 0.5:
             ops += probe_suffix(rng, src, nsrc, nsp)
-    return mk_case(prop, init, targets, ops, nsp)
+    return mk_case(prop, init, targets, ops, nsp, sub=(prop == 'C02' and rng.random() < 0.5))
 
 
 def compare(impl, model):
@@ -622,7 +706,7 @@ def compare(impl, model):
 
 
 def tags(case, impl):
-    t = [f'targets={len(case["targets"])}', f'len={min(len(case["ops"]), 12)}']
+    t = [f'targets={len(case["targets"])}', f'len={min(len(case["ops"]), 12)}', 'subclass' if case.get('sub') else 'direct-class']
     for td in case['targets']:
         for p, rhs in td['ctor']:
             t.append('ctor:' + rhs_kind(rhs))
@@ -637,12 +721,18 @@ def tags(case, impl):
                 t.append(f'{op["op"]}:{e}')
             if op['op'] in ('update', 'ctxEnter'):
                 t.append(f'{op["op"]}:form:{op.get("form", "pos")}')
+                if op.get('ev'):
+                    t.append(f'{op["op"]}:ev:{op["ev"]}:{e}')
+            if op['op'] == 'srcSet' and e != 'ok':
+                t.append('srcSet:rejected-sync')
     elif isinstance(impl, dict) and impl.get('ctor_err'):
         t.append('ctor_err:' + impl['ctor_err'])
     return t
 
 
 def rhs_kind(rhs):
+    if rhs['k'] == 'gen':
+        return 'gen'
     if rhs['k'] == 'cont':
         return 'plainpair' if rhs_is_lit(rhs) else 'nested'
     a = rhs['a']
